@@ -141,7 +141,7 @@ def gen_trace(rng, numeric=True, profile="wiring", values=None, p_bad=0.06):
             return {"phase": rng.randrange(8), "refl": rng.choice([0, 2]), "loss": rng.choice([0, 2])}[kind]
         x = rng.uniform(0, 2 * math.pi) if kind == "phase" else rng.random()
         if kind != "phase" and rng.random() < 0.12:         # values within 1e-10 of fully off / fully on
-            x = rng.choice([1e-10, 1 - 1e-10, 3e-12, 1 - 3e-12])
+            x = rng.choice([1e-10, 1 - 1e-10, 3e-12, 1 - 3e-12, 5e-6, 1 - 5e-6, 2e-6, 3e-5])    # below and just above the 1e-9 probability threshold
         if kind == "phase" and rng.random() < 0.1:
             x = rng.choice([-x, x + 2 * math.pi, 1e-12])
         values.append(x)
